@@ -46,7 +46,7 @@ package lastgersync
 //@   props C16 C04
 //@   nocalls
 //@   allowcalls Insert Errorf
-//@   requires gerInfo != nil
+//@   requires gerInfo != nil && tx != nil
 //@   modifies gerHas, gerRootAt, gerIdxAt, stmtFail
 //@   ensures[fault-counted] stmtFail == old(stmtFail) + ite(result == nil, 0, 1)
 //@   ensures[adds-exactly-this-row] result == nil ==> gerHas == upd(old(gerHas), gerInfo.BlockNum, true) && gerRootAt == upd(old(gerRootAt), gerInfo.BlockNum, gerInfo.GlobalExitRoot) && gerIdxAt == upd(old(gerIdxAt), gerInfo.BlockNum, gerInfo.L1InfoTreeIndex)
